@@ -408,9 +408,13 @@ func (in *inliner) closureCandidates() map[*types.Var]*inlCand {
 func isAliasDefOf(n ast.Node, id *ast.Ident) bool {
 	switch x := n.(type) {
 	case *ast.AssignStmt:
-		if x.Tok == token.DEFINE && len(x.Lhs) == 1 && len(x.Rhs) == 1 && x.Rhs[0] == ast.Expr(id) {
-			_, ok := x.Lhs[0].(*ast.Ident)
-			return ok
+		if x.Tok == token.DEFINE && len(x.Lhs) == len(x.Rhs) {
+			for i := range x.Rhs {
+				if x.Rhs[i] == ast.Expr(id) {
+					_, ok := x.Lhs[i].(*ast.Ident)
+					return ok
+				}
+			}
 		}
 	case *ast.ValueSpec:
 		return len(x.Names) == 1 && len(x.Values) == 1 && x.Values[0] == ast.Expr(id)
@@ -451,45 +455,50 @@ func (in *inliner) funcAliases(edits map[string][]textEdit, busy map[string][][2
 				bad    bool
 			}
 			als := map[*types.Var]*alias{}
-			ast.Inspect(file, func(n ast.Node) bool {
-				var lhs *ast.Ident
-				var rhs ast.Expr
-				switch x := n.(type) {
-				case *ast.AssignStmt:
-					if x.Tok == token.DEFINE && len(x.Lhs) == 1 && len(x.Rhs) == 1 {
-						lhs, _ = x.Lhs[0].(*ast.Ident)
-						rhs = x.Rhs[0]
-					}
-				case *ast.ValueSpec:
-					if len(x.Names) == 1 && len(x.Values) == 1 {
-						lhs, rhs = x.Names[0], x.Values[0]
-					}
-				}
+			var consider func(n ast.Node, lhs *ast.Ident, rhs ast.Expr)
+			consider = func(n ast.Node, lhs *ast.Ident, rhs ast.Expr) {
 				if lhs == nil || lhs.Name == "_" {
-					return true
+					return
 				}
 				v, ok := info.Defs[lhs].(*types.Var)
 				if !ok || v.Parent() == p.Types.Scope() || v.IsField() {
-					return true
+					return
 				}
 				if _, isSig := v.Type().Underlying().(*types.Signature); !isSig {
-					return true
+					return
 				}
 				rid, ok := ast.Unparen(rhs).(*ast.Ident)
 				if !ok {
-					return true
+					return
 				}
 				switch t := info.Uses[rid].(type) {
 				case *types.Func:
 					if t.Pkg() != p.Types || t.Type().(*types.Signature).Recv() != nil || t.Type().(*types.Signature).TypeParams() != nil {
-						return true
+						return
 					}
 					als[v] = &alias{v: v, target: t, name: rid.Name, def: n}
 				case *types.Var:
 					if t.Parent() == p.Types.Scope() || t.IsField() {
-						return true
+						return
 					}
 					als[v] = &alias{v: v, target: t, name: rid.Name, def: n}
+				}
+				return
+			}
+			ast.Inspect(file, func(n ast.Node) bool {
+				switch x := n.(type) {
+				case *ast.AssignStmt:
+					if x.Tok == token.DEFINE && len(x.Lhs) == len(x.Rhs) {
+						for i := range x.Lhs {
+							if l, ok := x.Lhs[i].(*ast.Ident); ok {
+								consider(n, l, x.Rhs[i])
+							}
+						}
+					}
+				case *ast.ValueSpec:
+					if len(x.Names) == 1 && len(x.Values) == 1 {
+						consider(n, x.Names[0], x.Values[0])
+					}
 				}
 				return true
 			})
@@ -658,6 +667,10 @@ type stackEntry struct{ n ast.Node }
 func (in *inliner) round() (map[string][]textEdit, bool) {
 	cands := in.candidates()
 	edits := map[string][]textEdit{}
+	// function variables that are just another name for a function: a round of their own (no overlapping edits)
+	if in.funcAliases(edits, nil) {
+		return edits, true
+	}
 	imports := map[string]map[string]string{} // file -> local name -> path to add
 	changed := false
 
